@@ -6,6 +6,7 @@ change with the outcome under /verif/seeded/CNN-X/."""
 import json, os, re, shutil, subprocess, sys, time
 lid, ch = sys.argv[1], sys.argv[2]
 with_b = "--with-b" in sys.argv
+skip_demo = "--skip-demo" in sys.argv
 PID = lid.upper()
 src = f"/tmp/seed-{lid}/out/{ch}"
 wt = f"/tmp/seed-{lid}/wt"
@@ -18,22 +19,27 @@ def sh(cmd, cwd=None, env=None, timeout=3600):
     return r.returncode, r.stdout + r.stderr
 res = {}
 # 1. demo with / without the change in the scratch worktree
-sh("git checkout -- . ; rm -f tests/seeded_demo_*.rs", cwd=wt)
-rc, out = sh(f"git apply --check {patch}", cwd=wt)
-res["patch_applies_to_scratch_worktree"] = rc == 0
-name = f"seeded_demo_{ch.lower()}"
-shutil.copy(demo, f"{wt}/tests/{name}.rs")
-sh(f"git apply {patch}", cwd=wt)
-rc1, o1 = sh(f"cargo test --offline --test {name} 2>&1 | tail -40", cwd=wt)
-m1 = re.findall(r"test result: (\w+)\. (\d+) passed; (\d+) failed", o1)
-sh("git checkout -- src", cwd=wt)
-rc2, o2 = sh(f"cargo test --offline --test {name} 2>&1 | tail -40", cwd=wt)
-m2 = re.findall(r"test result: (\w+)\. (\d+) passed; (\d+) failed", o2)
-os.remove(f"{wt}/tests/{name}.rs")
-sh("git checkout -- .", cwd=wt)
-res["demo_with_change"] = (m1[-1] if m1 else ("build-failed?", o1[-300:]))
-res["demo_without_change"] = (m2[-1] if m2 else ("build-failed?", o2[-300:]))
-res["demo_confirms"] = bool(m1 and m2 and m1[-1][0] == "FAILED" and m2[-1][0] == "ok")
+if skip_demo and os.path.exists(os.path.join(dst, "meta.json")):
+    prev = json.load(open(os.path.join(dst, "meta.json"))).get("verified_by_coordinator", {})
+    for k in ("patch_applies_to_scratch_worktree", "demo_with_change", "demo_without_change", "demo_confirms"):
+        res[k] = prev.get(k)
+else:
+    sh("git checkout -- . ; rm -f tests/seeded_demo_*.rs", cwd=wt)
+    rc, out = sh(f"git apply --check {patch}", cwd=wt)
+    res["patch_applies_to_scratch_worktree"] = rc == 0
+    name = f"seeded_demo_{ch.lower()}"
+    shutil.copy(demo, f"{wt}/tests/{name}.rs")
+    sh(f"git apply {patch}", cwd=wt)
+    rc1, o1 = sh(f"cargo test --offline --test {name} 2>&1 | tail -40", cwd=wt)
+    m1 = re.findall(r"test result: (\w+)\. (\d+) passed; (\d+) failed", o1)
+    sh("git checkout -- src", cwd=wt)
+    rc2, o2 = sh(f"cargo test --offline --test {name} 2>&1 | tail -40", cwd=wt)
+    m2 = re.findall(r"test result: (\w+)\. (\d+) passed; (\d+) failed", o2)
+    os.remove(f"{wt}/tests/{name}.rs")
+    sh("git checkout -- .", cwd=wt)
+    res["demo_with_change"] = (m1[-1] if m1 else ("build-failed?", o1[-300:]))
+    res["demo_without_change"] = (m2[-1] if m2 else ("build-failed?", o2[-300:]))
+    res["demo_confirms"] = bool(m1 and m2 and m1[-1][0] == "FAILED" and m2[-1][0] == "ok")
 # 2. the property's quick check against /repo with the change applied
 rc, out = sh("git status --porcelain --untracked-files=no", cwd="/repo")
 assert out.strip() == "", "repo not clean: " + out
